@@ -275,7 +275,7 @@ func (t *tree) parseCss(token item) ast.Node {
 	var exprText = strings.TrimSpace(cmdText.val[:lastComma])
 	return &ast.CssNode{
 		token.pos,
-		t.parseQuotedExpr(exprText),
+		t.parseQuotedExpr(exprText, token.pos),
 		strings.TrimSpace(cmdText.val[lastComma+1:]),
 	}
 }
@@ -325,7 +325,7 @@ func (t *tree) parseCall(token item) ast.Node {
 		if data == "all" {
 			allData = true
 		} else {
-			dataNode = t.parseQuotedExpr(data)
+			dataNode = t.parseQuotedExpr(data, token.pos)
 		}
 	}
 
@@ -419,7 +419,7 @@ func (t *tree) parseCallParams() []ast.Node {
 			t.expect(itemRightDelim, "param")
 			params = append(params, &ast.CallParamContentNode{initial.pos, key, value})
 		} else {
-			value = t.parseQuotedExpr(valueStr)
+			value = t.parseQuotedExpr(valueStr, initial.pos)
 			t.expect(itemRightDelimEnd, "param")
 			params = append(params, &ast.CallParamValueNode{initial.pos, key, value})
 		}
@@ -814,9 +814,10 @@ func (t *tree) boolAttr(attrs map[string]string, key string, defaultValue bool) 
 }
 
 // parseQuotedExpr ignores the current lex/parse state and parses the given
-// string as a standalone expression.
-func (t *tree) parseQuotedExpr(str string) ast.Node {
-	var tt = &tree{lex: lexExpr("", str)}
+// string as a standalone expression.  Its nodes are positioned from the given
+// position of the enclosing command, so that they lie inside that command.
+func (t *tree) parseQuotedExpr(str string, at ast.Pos) ast.Node {
+	var tt = &tree{lex: lexExprAt("", str, at)}
 	defer tt.lex.drain()
 	defer func() {
 		// an error in the nested parse knows neither the file nor the position of
